@@ -469,6 +469,17 @@ def check_leaf(c):
             ok = ref.wellformed(Z, shape) is None
             res.check(ok and np.linalg.norm(ref.dense(Z) - val) <= 1e-9 * max(np.linalg.norm(val), 1e-300) + 1e-12 * np.linalg.norm(root.B + partners[0].B + 2),
                       'add_many', dict(case, n_items=len(items)), 'add_many differs from the dense sum', tags)
+        # summands that cancel later: partial sums have larger ranks than the result; a cap that does not bind for the exact sum must not cost accuracy
+        P0, P1 = partners[0].Y, partners[1 % len(partners)].Y
+        rcap = max(G.shape[2] for G in root.Y)
+        for tf in (2, 15):
+            res.ev()
+            items = [root.Y] + [P0, P1, teneva.mul(P0, -1.0), teneva.mul(P1, -1.0)] * 4
+            Z = teneva.add_many(items, e=1e-12, r=rcap, trunc_freq=tf)
+            nb = float(np.linalg.norm(root.B + 8 * (partners[0].B + partners[1 % len(partners)].B)))
+            dev = float(np.linalg.norm(ref.dense(Z) - root.D))
+            res.check(ref.wellformed(Z, shape) is None and dev <= 1e-9 * max(np.linalg.norm(root.D), 1e-300) + 1e-10 * nb, 'add_many.cancel', dict(case, trunc_freq=tf, r=rcap),
+                      lambda: 'A + 4 (B + C - B - C) with the cap r = rank(A) = %d deviates from A by %.3e' % (rcap, dev), tags)
         res.check(teneva.outer_many([]) is None, 'outer_many.empty', case, 'outer_many([])', tags)
     res.outcome('states=%d' % len(seen))
     return res
